@@ -128,6 +128,32 @@ func apiProbes() []probe {
 			}
 			return nil
 		}},
+		// annotation purity (C11) seen from the properties the annotations serve: deriving F[B](p) from p = F[A](x) must not
+		// give p itself the annotation for B (the per-type annotation sets are maps / slices inside the provider)
+		{"annotation-leak/AllowReturnShadowing expect=error", func() error {
+			over := nject.AllowReturnShadowing[T1](func(inner func()) T0 { inner(); return T0{Tag: 1} })
+			_ = nject.AllowReturnShadowing[T0](over)
+			var f func() T0
+			return nject.Sequence("p", over, func() T0 { return T0{Tag: 2} }).Bind(&f, nil)
+		}},
+		{"annotation-leak/ConsumptionOptional expect=error", func() error {
+			fin := nject.ConsumptionOptional[T1](func() (T0, T2) { return T0{}, T2{} })
+			_ = nject.ConsumptionOptional[T2](fin)
+			var f func() T0
+			return nject.Sequence("p", fin).Bind(&f, nil)
+		}},
+		{"annotation-leak/MustConsume expect=accepted", func() error {
+			src := nject.MustConsume[T0](func() (T0, T1) { return T0{}, T1{} })
+			_ = nject.MustConsume[T1](src)
+			var f func() T2
+			return nject.Sequence("p", nject.Required(src), func(a T0) T2 { return T2{} }).Bind(&f, nil)
+		}},
+		{"annotation-leak/Loose expect=error", func() error {
+			src := nject.Loose[I0](func() T6 { return T6{} })
+			_ = nject.Loose[I1](src)
+			var f func() T2
+			return nject.Sequence("p", src, func(a I1) T2 { return T2{} }).Bind(&f, nil)
+		}},
 		{"Singleton+Memoize", func() error {
 			var f func() T0
 			return nject.Sequence("p", nject.Memoize(nject.Singleton(func() T0 { return T0{} })), func(a T0) T0 { return a }).Bind(&f, nil)
